@@ -42,7 +42,7 @@ def main(argv=None):
               f'tier={a.tier}, repo={repo.root}')
         if rc == 0 and a.tier == 'thorough' and not a.no_liveness and os.environ.get('LSA_NO_LIVENESS') != '1':
             from . import liveness
-            rc = liveness.run(pid)
+            rc = liveness.run(pid, undecided=sorted({o.clause for o in chk.obligations if o.ok is None}))
             # record what the rule-liveness run covered in the evidence file
             import json
             from .report import evidence_dir
